@@ -174,18 +174,38 @@ func (g *sg) rangeLoop(env *sgEnv, s *ast.RangeStmt, after lcont, ctx *sgCtx) (s
 	if s.Tok != token.DEFINE {
 		return "", fmt.Errorf("unsupported range loop (no :=)")
 	}
+	indexOnly := false // for i := range s {}  (ring helpers)
 	if s.Key != nil {
 		if id, ok := s.Key.(*ast.Ident); !ok || id.Name != "_" {
-			return "", fmt.Errorf("unsupported range loop (index variable)")
+			if !ok || !g.rh || s.Value != nil {
+				return "", fmt.Errorf("unsupported range loop (index variable)")
+			}
+			indexOnly = true
 		}
 	}
 	val, ok := s.Value.(*ast.Ident)
+	if indexOnly {
+		val, ok = s.Key.(*ast.Ident)
+	}
 	if !ok || val.Name == "_" {
 		return "", fmt.Errorf("unsupported range loop (no element variable)")
 	}
 	bodyEnv := env.clone()
 	var binds []string
 	var list, elTy string
+	if g.rh {
+		list, elTy = g.rhRangeSource(env, s.X)
+	}
+	if indexOnly {
+		v, err := g.expr(env, s.X, &binds)
+		if err != nil {
+			return "", err
+		}
+		if _, ok := sgElem(v.ty); !ok {
+			return "", fmt.Errorf("range over %s", v.ty)
+		}
+		list, elTy = "(zseq (length "+v.code+"))", stInt
+	}
 	if c, ok := s.X.(*ast.CallExpr); ok && len(c.Args) == 0 {
 		if sel, ok := c.Fun.(*ast.SelectorExpr); ok && sel.Sel.Name == "Keys" {
 			if x, ok := sel.X.(*ast.Ident); ok && env.vars[x.Name] == stSeqmap {
@@ -337,9 +357,9 @@ func genKmpDedup(repo string) (string, error) {
 	return g.out.String(), nil
 }
 
-// genCleanupRing: cleanupNewRing of snap.go -> gen/CleanupRingGen.v.  kmpDeduplicate and asPointOrLine are the
-// regenerated ones (KmpDedupGen.v, SnapSmallGen.v); splitRing is the MODEL's, its arguments (hitMultiple, ringIdx)
-// being the model's predicate isMulti.
+// genCleanupRing: cleanupNewRing of snap.go -> gen/CleanupRingGen.v.  kmpDeduplicate, asPointOrLine and splitRing are
+// the regenerated ones (KmpDedupGen.v, SnapSmallGen.v, SplitWalkGen.v); the arguments (hitMultiple, ringIdx) of
+// splitRing are the predicate isMulti.
 func genCleanupRing(repo string) (string, error) {
 	g, err := sgLoad(repo)
 	if err != nil {
@@ -378,7 +398,7 @@ func genCleanupRing(repo string) (string, error) {
 		g.sigs[name], g.emitted[name] = sig, true
 	}
 	g.out.WriteString("(* GENERATED by /verif/translator (G2, loops in the error monad) from snap/snap.go on every run -- do not edit. *)\n")
-	g.out.WriteString("From Coq Require Import ZArith List Bool.\nFrom Texel Require Import Prelude.Base Prelude.GoLoop Index.Model Snap.Model.\nFrom Texel.Gen Require Import KmpDedupGen SnapSmallGen.\nImport ListNotations.\nOpen Scope Z_scope.\n\n")
+	g.out.WriteString("From Coq Require Import ZArith List Bool.\nFrom Texel Require Import Prelude.Base Prelude.GoLoop Index.Model Snap.Model.\nFrom Texel.Gen Require Import KmpDedupGen SnapSmallGen SplitWalkGen.\nImport ListNotations.\nOpen Scope Z_scope.\n\n")
 	if err := g.function("cleanupNewRing"); err != nil {
 		return "", err
 	}
